@@ -58,6 +58,21 @@ type GKey string
 
 var TGKey = reflect.TypeOf(GKey(""))
 
+// Defined scalar types: same kind as the built-in type, another type identity.
+type (
+	GInt  int32
+	GStr  string
+	GUint uint16
+	GBool bool
+)
+
+var (
+	TGInt  = reflect.TypeOf(GInt(0))
+	TGStr  = reflect.TypeOf(GStr(""))
+	TGUint = reflect.TypeOf(GUint(0))
+	TGBool = reflect.TypeOf(GBool(false))
+)
+
 // RandStruct builds a random struct type.
 func RandStruct(rng *rand.Rand, o TypeOpts) reflect.Type {
 	return randStruct(rng, o, 0)
